@@ -15,6 +15,11 @@
             Full = FALSE: every (format, value) with the form chosen by the value + every
             (format, form) with the default value.  Formats whose metadata type carries no
             textual property get the default value only.
+   "heads"  every layout of an HTML / MHTML head (optional tags omitted or not, title before / after the meta
+            elements, letter case of tag and metadata names, attribute order) x 3 property values.
+   "opfs"   every layout of an EPUB package document (prefixed / default namespace, title first / last, dc
+            elements with attributes, version 2 / 3) x 3 property values.
+   "alts"   pictures' alternative texts: (format x name x title x description), each absent / empty / blank / text.
    "units"  every run of <= MaxUnits RTF \uN code units over {A, e-acute, a high surrogate, a low
             surrogate}: TLC checks that the reference decoding is always well-formed Unicode and
             inverts ToUnits; each run is written into an RTF title and body.                     *)
@@ -76,8 +81,36 @@ UnitTok == {65, 233, 55357, 56832}
 UnitRuns == SeqsUpTo(UnitTok, MaxUnits) \ {<<>>}
 AstralSamples == {<<128512>>, <<65, 128512>>, <<128512, 233, 65536>>, <<1114111>>}
 
+(* ---- markup layouts of the stored document properties (HTML / MHTML head, EPUB package document) ---- *)
+\* HTML5 lets the <html>, <head> and <body> tags be omitted; <title> may stand before or after the <meta>
+\* elements; tag names and the standard metadata names (author, description, keywords) are matched
+\* case-insensitively; attribute order and quoting are free
+HeadLayouts ==
+    { [html |-> h, head |-> hd, body |-> b, titlepos |-> t, namecase |-> n, tagcase |-> g, attr |-> a] :
+        h \in BOOLEAN, hd \in BOOLEAN, b \in BOOLEAN, t \in {"first", "last"},
+        n \in {"lower", "title", "upper"}, g \in {"lower", "upper"}, a \in {"name-first", "content-first"} }
+\* OPF: package elements in the default namespace or prefixed, dc:title first or last, dc elements with
+\* or without attributes (id / opf:role / xml:lang), EPUB 2 or 3
+OpfLayouts ==
+    { [prefix |-> p, titlepos |-> t, attrs |-> a, version |-> v] :
+        p \in {"default", "opf"}, t \in {"first", "last"}, a \in BOOLEAN, v \in {"2.0", "3.0"} }
+LayoutVals == { <<"a", "e1">>, <<"am", "lt", "a">>, <<"dq", "a", "sq">> }
+
+(* ---- alternative texts of pictures ---- *)
+\* svg:title / svg:desc children of draw:frame (ODF), title / descr attributes of docPr / cNvPr (OOXML),
+\* and the frame / shape name: each absent, empty, blank or a text
+AltKinds == {"absent", "empty", "blank", "text"}
+AltFormats == {"odt", "ods", "odp", "odg", "docx", "pptx", "xlsx"}
+Alts == { [fmt |-> f, name |-> n, title |-> t, desc |-> d] :
+            f \in AltFormats \cap Formats, n \in {"absent", "text"}, t \in AltKinds, d \in AltKinds }
+
 Init ==
-    CASE Mode = "paths" -> c \in { [kind |-> "path", path |-> p] : p \in PathUniverse }
+    CASE Mode = "heads" -> c \in { [kind |-> "head", fmt |-> f, layout |-> y, val |-> v] :
+                                     f \in {"html", "mhtml"} \cap Formats, y \in HeadLayouts, v \in LayoutVals }
+      [] Mode = "opfs" -> c \in { [kind |-> "opf", fmt |-> "epub", layout |-> y, val |-> v] :
+                                     y \in OpfLayouts, v \in LayoutVals }
+      [] Mode = "alts" -> c \in { [kind |-> "alt", alt |-> a] : a \in Alts }
+      [] Mode = "paths" -> c \in { [kind |-> "path", path |-> p] : p \in PathUniverse }
       [] Mode = "cases" -> c \in { [kind |-> "case", fmt |-> x.fmt, path |-> Forms[x.form], form |-> x.form, val |-> x.val] :
                                      x \in { y \in Cases : CaseWanted(y) } }
       [] Mode = "units" -> c \in { [kind |-> "units", units |-> u] : u \in UnitRuns }
